@@ -149,10 +149,27 @@ class KernelModel:
         return names
 
     def _check_structure(self):
+        import loopy as lp
         probs = []
         for name, ws in self.writers.items():
             if len(ws) != 1:
                 probs.append(f"variable {name} has {len(ws)} writers")
+            arg = self.args.get(name)
+            if arg is not None and (isinstance(arg, lp.ValueArg) or not getattr(arg, "is_output", False)):
+                probs.append(f"input argument {name} is written by instruction {ws[0].id}")
+        for name in self.temps:
+            if name in self.args:
+                probs.append(f"temporary {name} shadows a kernel argument")
+        for name in self.subst:
+            if name in self.args or name in self.temps:
+                probs.append(f"substitution rule {name} shadows a kernel argument/temporary")
+        for iname in self.domain_of:
+            if iname in self.args or iname in self.temps:
+                probs.append(f"iname {iname} collides with a variable name")
+        for insn in self.k.instructions:
+            for iname in insn.within_inames:
+                if iname not in self.domain_of:
+                    probs.append(f"instruction {insn.id} runs inside iname {iname}, which has no domain")
         for insn in self.k.instructions:
             expr = getattr(insn, "expression", None)
             if expr is None:
@@ -259,7 +276,46 @@ class KernelModel:
         return Ev(alg, lookup, red_bounds, callres)(expr, env)
 
     def _call_result(self, alg, insn, name, idx, env, sizes, depth):
-        raise KernelUnsupported("calls to hand-written loopy kernels")
+        """result of a call to a hand-written callee kernel: the callee is read into
+        its own model; its reads of input arguments are evaluated through the
+        caller's sub-array references"""
+        from loopy.symbolic import SubArrayRef
+        call = insn.expression
+        fn = call.function
+        cname = getattr(getattr(fn, "function", fn), "name", None)
+        if cname is None or cname not in self.t_unit.callables_table:
+            raise KernelUnsupported(f"call to {fn}")
+        if cname not in self.callees:
+            self.callees[cname] = KernelModel(self.t_unit, entry=cname)
+        callee = self.callees[cname]
+        in_args = [a for a in callee.k.args if getattr(a, "is_input", False) and not getattr(a, "is_output", False)]
+        out_args = [a for a in callee.k.args if getattr(a, "is_output", False)]
+        if len(in_args) != len(call.parameters) or len(out_args) != len(insn.assignees):
+            raise KernelUnsupported("callee argument convention")
+        pos = [self._assignee_name(a) for a in insn.assignees].index(name)
+        out_ref = insn.assignees[pos]
+        if not isinstance(out_ref, SubArrayRef) or tuple(out_ref.subscript.index_tuple) != tuple(out_ref.swept_inames):
+            raise KernelUnsupported("output sub-array reference is not the identity")
+        param_of = {a.name: prm for a, prm in zip(in_args, call.parameters)}
+        outer = self
+
+        class CalleeAlg:
+            def __getattr__(self_, n):
+                return getattr(alg, n)
+
+            def read(self_, aname, cidx):
+                prm = param_of.get(aname)
+                if prm is None:
+                    raise KernelUnsupported(f"callee reads {aname}")
+                if isinstance(prm, SubArrayRef):
+                    e2 = dict(env)
+                    if len(prm.swept_inames) != len(cidx):
+                        raise KernelUnsupported("sub-array rank")
+                    for v, val in zip(prm.swept_inames, cidx):
+                        e2[v.name] = val
+                    return outer._eval(alg, prm.subscript, e2, sizes, depth + 1)
+                return outer._eval(alg, prm, env, sizes, depth + 1)
+        return callee.at(CalleeAlg(), out_args[pos].name, idx, {}, sizes, depth + 1)
 
 
 def run_kernel_numerically(t_unit, inputs):
@@ -270,7 +326,10 @@ def run_kernel_numerically(t_unit, inputs):
     k = t_unit.default_entrypoint
     glob = [n for n, tv in k.temporary_variables.items() if tv.address_space == lp.AddressSpace.GLOBAL]
     if glob:
-        t_unit = lp.set_temporary_address_space(t_unit, ",".join(glob) if False else glob, "private")
+        from loopy.kernel.data import AddressSpace
+        knl = k.copy(temporary_variables={n: (tv.copy(address_space=AddressSpace.PRIVATE) if n in glob else tv)
+                                          for n, tv in k.temporary_variables.items()})
+        t_unit = t_unit.with_kernel(knl)
     args = {}
     for a in t_unit.default_entrypoint.args:
         if a.name in inputs:
